@@ -305,3 +305,29 @@ for _pid, _thms, _text in [
         "level_note": COMMON_NOTE + "Partial by nature: wall-clock and kernel behaviour enter as assumptions and are sampled.",
         "design_ref": "DESIGN.md section 5, " + _pid,
     }
+
+PROPS["C08"] = {
+    "skeleton_fns": STATEFNS + ["finitestate_Machine_getStateChanInternal", "finitestate_Machine_GetStateChan", "finitestate_newMachine",
+                                "finitestate_NewTypicalFSM", "composite_Runner_setStateError", "httpserver_Runner_setStateError",
+                                "httpcluster_Runner_setStateError", "composite_Runner_Run", "composite_Runner_Reload",
+                                "httpserver_Runner_Run", "httpserver_Runner_Reload", "httpserver_Runner_shutdown",
+                                "httpcluster_Runner_Run", "httpcluster_Runner_shutdown", "httpcluster_Runner_processConfigUpdate"],
+    "lean_modules": ["GoSup.Props.C08"],
+    "theorems": ["GoSup.Props.C08.c08_walk", "GoSup.Props.C08.edge_apply"],
+    "ties": ["GoSup.Props.C08.tie_setState_sites", "GoSup.Props.C08.tie_error_reachable", "GoSup.Props.C08.tie_table_documented",
+             "GoSup.Props.C08.tie_isRunning"],
+    "legs": [{"name": "httpsrv", "cmd": "httpsrv"}, {"name": "composite", "cmd": "composite"}],
+    "rule": "state streams of the real composite and HTTP server runners over the histories of the composite and httpsrv legs "
+            "(Run/Stop/Reload/cancel, child failures, boot failures, callback errors), observed by a subscriber present from the start "
+            "and by one joining 0-60 ms later; Spec.C08.holdsStream on (streams, Run result, state at return, channel closure). "
+            + COMP_RULE + " " + HTTP_RULE,
+    "assumptions": ["go-fsm v2.3.0: Transition follows only table edges, SetState bypasses them, broadcasts are serial and in order; its "
+                    "transition table is extracted from the pinned module on every run, not assumed"],
+    "trusted_base": [],
+    "level_text": "Theorem: for ANY sequence of FSM calls in which SetState is only used with Error, over ANY transition table, the "
+                  "successive states are a walk in the lifecycle graph with only Error entered out of turn; regenerated table theorems "
+                  "(decide +kernel) show the runners' SetState call sites, IsRunning bodies and the extracted transitions.Typical satisfy "
+                  "the hypotheses; streams and the result clause are checked on traces of the real runners.",
+    "level_note": COMMON_NOTE,
+    "design_ref": "DESIGN.md section 5, C08",
+}
